@@ -160,6 +160,9 @@ def build_env(cls: dict):
         return TimeLimit(SimMDP("discrete", (3,), "box", dummy_tables(5, "discrete", (3,))), 5)
     if e == "sim_box":
         return TimeLimit(SimMDP("box", (2,), "box", dummy_tables(5, "box", (2,))), 5)
+    if e == "sim_dict":
+        # Dict observation with five string keys: anything ordered by string hashes differs between interpreters
+        return TimeLimit(SimMDP("discrete", (3,), "dictwide", dummy_tables(5, "discrete", (3,), D=5)), 5)
     if e == "gym_peer":
         from lerax.compatibility.gym import GymToLeraxEnv
 
@@ -257,7 +260,7 @@ class Runner:
         if cls["env"].startswith("sim") or cls["env"] == "gym_peer":
             kind = "box" if cls["env"] == "sim_box" else "discrete"
             dims = (3,) if kind == "discrete" else (2,)
-            plan["world"] = gen_tables(rng, S=5, kind=kind, dims=dims, bias={"single_init": False, "p_stochastic": 0.0} if cls["env"] == "gym_peer" else None)
+            plan["world"] = gen_tables(rng, S=5, kind=kind, dims=dims, D=5 if cls["env"] == "sim_dict" else 3, bias={"single_init": False, "p_stochastic": 0.0} if cls["env"] == "gym_peer" else None)
             plan["time_limit"] = rng.choice([2, 3, 5, 1000]) if cls["env"] != "gym_peer" else rng.choice([2, 3, 5])
         if cls["observer"] == "video":
             plan["faults"].append({"kind": "video_schedule", "mode": rng.choice(["early", "late:1", "late:2", "late:3", "at_close", "never"])})
